@@ -124,6 +124,10 @@ def must(ctx):
             out.append(undecided(R, key, 'expected at least %d site(s), found %d' % (floor, found)))
     out += _edge_rows(ctx)
     out += _pipe_rows(ctx)
+    out += must_decide(ctx)
+    out += _pool_rows(ctx)
+    out += _future_rows(ctx)
+    out += _pipe_rows2(ctx)
     return out
 
 
@@ -234,7 +238,7 @@ def _edge_rows(ctx):
         some = edge_for(e, OPTION, 'Some') if e else None
         if len(wakes) < 2 or some is None:
             out.append(undecided(R, key, 'expected a take() and two wakes (found %d wakes)' % len(wakes)))
-        elif all(dw.must_pass(some, set(dw.exits()), {w}) for w in wakes):
+        elif all(dw.must_pass(some, set(dw.exits()), {w}) for w in wakes) and not any(_reach_exit_avoiding(dw, {w}, _option_none_edges(dw, 'Waker'), src=dw.blocks[takes[0][0]]['term']['target']) for w in wakes):
             out.append(ok(R, key, 'the pair that was taken is woken completely on every path', fn=dw.name))
         else:
             out.append(bad(R, key, 'DoubleWaker can wake only one of its two wakers: either the queue or the awaiting task misses the wake-up', loc=dw.loc(wakes[0]), fn=dw.name))
@@ -414,4 +418,341 @@ def _pipe_rows(ctx):
                 out.append(ok(R, key, 'the handles taken out of the table are joined on every path', fn=dp.name))
             else:
                 out.append(bad(R, key, 'threads removed from the table are not always joined: the call returns while they still run (and nothing refers to them any more)', loc=dp.loc(outer[0]) if outer else '', fn=dp.name))
+    return out
+
+
+# ---------------------------------------------------------------------------------------------
+# functions that decide on the queue's state: no way out before the state has been looked at (an early exit of a waker is a lost wake-up,
+# of reschedule_queue a stranded queue, of dequeue a job list taken for empty, of a claim a hand-over nobody accepts)
+DECIDERS = ('desync::Scheduler::schedule_job_desync', 'desync::Scheduler::sync', 'desync::Scheduler::try_sync', 'desync::Scheduler::sync_no_panic',
+            'desync::SchedulerCore::claim_pending_queue', 'desync::SchedulerCore::reschedule_queue', 'desync::JobQueue::dequeue',
+            '<desync::WakeQueue as futures_task::arc_wake::ArcWake>::wake_by_ref', '<desync::WakeThread as futures_task::arc_wake::ArcWake>::wake_by_ref')
+
+
+def _state_switches(fn):
+    out = []
+    for bb, b in enumerate(fn.blocks):
+        t = b['term']
+        if not t or t['k'] != 'switch' or b['cleanup'] or 'assert' in (t['sp'].get('mac') or ''):
+            continue
+        for s_ in b['stmts']:
+            if s_['k'] == 'assign' and s_['rv']['k'] == 'discr' and clean_ty(s_['rv']['pl']['ty']) == 'desync::QueueState':
+                out.append(bb)
+    return out
+
+
+def _decision_blocks(ctx, fn, depth=2):
+    F = ctx.F
+    g = cg(ctx)
+    out = set(_state_switches(fn))
+    if depth > 0:
+        for s_ in g.sites.get(fn.name, []):
+            if s_.kind in ('static', 'hof') and not fn.blocks[s_.bb]['cleanup']:
+                for c in s_.targets:
+                    cf = F.fn(c)
+                    if cf is not None and cf.name != fn.name and _decision_blocks(ctx, cf, depth - 1):
+                        out.add(s_.bb)
+    # `state == X` / `state != X` comparisons go through PartialEq::eq
+    for bb, t in fn.calls():
+        nm = t.get('resolved') or t['func'].get('fn') or ''
+        if not fn.blocks[bb]['cleanup'] and 'QueueState' in nm and nm.endswith(('::eq', '::ne')):
+            out.add(bb)
+    return out
+
+
+def must_decide(ctx):
+    F = ctx.F
+    out = []
+    n = 0
+    for name in DECIDERS:
+        fn = F.fn(name)
+        key = '%s|looks-at-the-state' % short(name)
+        if not fn:
+            continue
+        dec = _decision_blocks(ctx, fn)
+        if not dec:
+            out.append(undecided(R, key, 'no test of the queue state found in this function or the helpers it calls'))
+            continue
+        n += 1
+        if _always(fn, dec):
+            out.append(ok(R, key, 'every path through the function passes a test of the queue state', fn=fn.name))
+        else:
+            out.append(bad(R, key, '%s can return without having looked at the state of the queue: whatever it was called to hand over (a wake-up, a queue to schedule or to claim, a job to take) is dropped on that path' % short(name), fn=fn.name))
+    if n < 7:
+        out.append(undecided(R, 'looks-at-the-state|floor', 'only %d of the %d state-deciding functions were found' % (n, len(DECIDERS))))
+    return out
+
+
+def _ret_blocks(fn, val):
+    """blocks that set the (bool) return value to the literal `val`"""
+    out = []
+    for bb, b in enumerate(fn.blocks):
+        if b['cleanup']:
+            continue
+        for s_ in b['stmts']:
+            if s_['k'] == 'assign' and not s_['pl']['p'] and s_['pl']['l'] == 0 and s_['rv']['k'] == 'use' and s_['rv']['op']['k'] == 'const' and str(s_['rv']['op'].get('val')) == str(val):
+                out.append(bb)
+    return out
+
+
+def _pool_rows(ctx):
+    from .ordq import dominates, edom
+    from .rules_lw import FieldUse
+    F = ctx.F
+    g = cg(ctx)
+    out = []
+    # schedule_thread always asks for a dormant thread
+    st = F.fn('desync::SchedulerCore::schedule_thread')
+    key = 'schedule_thread|asks-for-a-thread'
+    if st:
+        d = [bb for bb, t in calls(st, 'SchedulerCore::schedule_dormant')]
+        if not d:
+            out.append(undecided(R, key, 'schedule_dormant call not found'))
+        elif _always(st, d):
+            out.append(ok(R, key, 'every call looks for a dormant thread', fn=st.name))
+        else:
+            out.append(bad(R, key, 'schedule_thread can return without having looked for a thread: the queue that was just put on the schedule is served by nobody', fn=st.name))
+    # schedule_dormant: "a thread was woken" is only reported after work was handed to a thread; dead threads are reaped on every call
+    sd = F.fn('desync::SchedulerCore::schedule_dormant')
+    key = 'schedule_dormant|true-means-handed-over'
+    if sd:
+        runs = [bb for bb, t in calls(sd, 'SchedulerThread::run')]
+        trues = _ret_blocks(sd, 1)
+        if not runs or not trues:
+            out.append(undecided(R, key, 'hand-over (SchedulerThread::run) or literal `true` result not found'))
+        elif all(any(dominates(sd, r, b) for r in runs) for b in trues):
+            out.append(ok(R, key, 'every `true` result is dominated by the hand-over of work to a thread', fn=sd.name))
+        else:
+            out.append(bad(R, key, 'schedule_dormant can report that a thread was woken without having handed work to one: the caller stops trying and the queue waits in the schedule', fn=sd.name))
+        key = 'schedule_dormant|false-means-every-thread-was-looked-at'
+        falses = _ret_blocks(sd, 0)
+        nxt = [(bb, t) for bb, t in sd.calls() if (t['func'].get('fn') or '').endswith('Iterator::next') and not sd.blocks[bb]['cleanup']]
+        if len(nxt) == 1 and falses:
+            e = result_edges(sd, nxt[0][0])
+            none = edge_for(e, OPTION, 'None') if e else None
+            if none is not None:
+                if all(edom(sd, none, b) for b in falses):
+                    out.append(ok(R, key, '`false` is only reported after the walk over the thread table is exhausted', fn=sd.name))
+                else:
+                    out.append(bad(R, key, 'schedule_dormant can report "no dormant thread" without having looked at every thread: the pool spawns (or, at its maximum, gives up) while an idle thread exists', fn=sd.name))
+        key = 'schedule_dormant|reaps-first'
+        rf = [bb for bb, t in calls(sd, 'SchedulerCore::remove_finished_threads')]
+        if rf and _always(sd, rf):
+            out.append(ok(R, key, 'dead threads are reaped on every call', fn=sd.name))
+        elif rf:
+            out.append(bad(R, key, 'schedule_dormant can skip the reaping of finished threads', fn=sd.name))
+    # spawn_thread_if_less_than_maximum: true only after the push, false only when there is no room
+    sp = F.fn('desync::SchedulerCore::spawn_thread_if_less_than_maximum')
+    key = 'spawn_thread_if_less_than_maximum|answers'
+    if sp:
+        pushes = [bb for bb, t in calls(sp, 'alloc::vec::Vec::push') if t['args'] and t['args'][0]['k'] != 'const' and 'SchedulerThread' in clean_ty(t['args'][0]['pl']['ty'])]
+        trues, falses = _ret_blocks(sp, 1), _ret_blocks(sp, 0)
+        cmps = []
+        for bb, b in enumerate(sp.blocks):
+            t = b['term']
+            if t and t['k'] == 'switch' and not b['cleanup']:
+                for s_ in b['stmts']:
+                    if s_['k'] == 'assign' and s_['rv']['k'] == 'binop' and s_['rv']['op'] in ('Lt', 'Gt', 'Le', 'Ge', 'Eq', 'Ne'):
+                        txt = render(sp.expr_of_operand(s_['rv']['a'])) + render(sp.expr_of_operand(s_['rv']['b']))
+                        if 'len(' in txt:
+                            cmps.append(bb)
+        if not pushes or not trues or not falses or not cmps:
+            out.append(undecided(R, key, 'shape not recognised (push %d, true %d, false %d, bound test %d)' % (len(pushes), len(trues), len(falses), len(cmps))))
+        else:
+            probs = []
+            if not all(any(dominates(sp, p_, b) for p_ in pushes) for b in trues):
+                probs.append('it can report that a thread was added without having added one (the caller retries for ever or believes the queue is served)')
+            if not all(any(dominates(sp, c_, b) for c_ in cmps) for b in falses):
+                probs.append('it can refuse without having compared the table with the maximum: a ready queue gets no thread although the pool has room')
+            else:
+                # the refusal lies on the no-room side of the bound test: the side that does not lead to the push
+                for c_ in cmps:
+                    t_ = sp.blocks[c_]['term']
+                    succ = [tb for _, tb in t_['targets']] + [t_['otherwise']]
+                    room = [e_ for e_ in succ if any(edom(sp, e_, p_) for p_ in pushes)]
+                    if len(room) == 1 and any(edom(sp, room[0], b) for b in falses):
+                        probs.append('it can refuse on the side of the bound test where the pool has room: a ready queue gets no thread although one could be spawned')
+            if probs:
+                out.append(bad(R, key, '; '.join(probs), fn=sp.name))
+            else:
+                out.append(ok(R, key, '`true` only after the push, `false` only after the bound test', fn=sp.name))
+    # remove_finished_threads always walks the table and always joins what it took out
+    rf = F.fn('desync::SchedulerCore::remove_finished_threads')
+    key = 'remove_finished_threads|always-walks-the-table'
+    if rf:
+        from .locks import lock_sites
+        locks = [bb for bb, t, kind, cls in lock_sites(rf) if cls == 'SchedulerCore.threads']
+        if locks and _always(rf, locks):
+            out.append(ok(R, key, 'every call takes the threads lock and looks at the table', fn=rf.name))
+        elif locks:
+            out.append(bad(R, key, 'remove_finished_threads can return without looking at the thread table: a pool thread killed by a panicking job keeps its slot', fn=rf.name))
+    return out
+
+
+def _future_rows(ctx):
+    from .ordq import dominates, edom, await_sites
+    from .rules_lw import FieldUse
+    F = ctx.F
+    g = cg(ctx)
+    out = []
+    # FutureJob::run answers Pending only when the future it polled said so
+    fj = F.fn('<desync::FutureJob<TFn> as desync::ScheduledJob>::run') or F.fn('desync::FutureJob::run')
+    key = 'FutureJob::run|pending-only-from-the-future'
+    if fj:
+        polls = [s_ for s_ in g.sites.get(fj.name, []) if s_.kind == 'poll']
+        pend = []
+        for bb, b in enumerate(fj.blocks):
+            if b['cleanup']:
+                continue
+            for s_ in b['stmts']:
+                if s_['k'] == 'assign' and not s_['pl']['p'] and s_['pl']['l'] == 0 and s_['rv']['k'] == 'agg' and s_['rv'].get('variant') == 'Pending':
+                    pend.append(bb)
+        if len(polls) == 1 and pend:
+            e = result_edges(fj, polls[0].bb)
+            pe = edge_for(e, 'core::task::poll::Poll', 'Pending') if e else None
+            if pe is None:
+                out.append(undecided(R, key, 'test of the inner poll not recognised'))
+            elif all(edom(fj, pe, b) for b in pend):
+                out.append(ok(R, key, 'Pending is answered only on the Pending edge of the job\'s future (which then holds the waker)', fn=fj.name))
+            else:
+                out.append(bad(R, key, 'a future job can answer Pending without its future having been polled to Pending: nobody holds a waker for it, the queue parks and is never resumed', fn=fj.name))
+    # DoubleWaker always looks into its slot
+    dw = F.fn('<desync::DoubleWaker as futures_task::arc_wake::ArcWake>::wake_by_ref')
+    key = 'DoubleWaker|looks-into-its-slot'
+    if dw:
+        takes = [bb for bb, t in calls(dw, 'core::option::Option::take')] + [bb for bb, t in calls(dw, 'core::clone::Clone::clone') if 'Option<' in clean_ty(dw.local_ty(t['dest']['l']))]
+        if takes and _always(dw, takes):
+            out.append(ok(R, key, 'every wake-up takes the pair of wakers', fn=dw.name))
+        elif takes:
+            out.append(bad(R, key, 'a wake-up of the DoubleWaker can return before it has taken its two wakers: neither the queue nor the awaiting task is woken', fn=dw.name))
+    # the value swapped out of a state cell is always examined (an early exit after the swap loses it)
+    for name, ety, why in (('desync::FutureResultState::take', 'desync::FutureResultState', 'the result of a scheduler future can be moved out of its slot and dropped'),
+                           ('desync::JobState::take', 'desync::JobState', 'the future of a job can be moved out of the job and dropped')):
+        fn = F.fn(name)
+        key = '%s|examines-what-it-took' % short(name)
+        if not fn:
+            continue
+        sw = [bb for bb, t in fn.calls() if (t['func'].get('fn') or '') in ('core::mem::swap', 'core::mem::replace', 'core::mem::take') and not fn.blocks[bb]['cleanup']]
+        tests = []
+        for bb, b in enumerate(fn.blocks):
+            t = b['term']
+            if t and t['k'] == 'switch' and not b['cleanup']:
+                for s_ in b['stmts']:
+                    if s_['k'] == 'assign' and s_['rv']['k'] == 'discr' and clean_ty(s_['rv']['pl']['ty']).startswith(ety):
+                        tests.append(bb)
+        if len(sw) == 1 and tests:
+            tgt = fn.blocks[sw[0]]['term']['target']
+            if tgt is not None and fn.must_pass(tgt, set(fn.exits()), set(tests)):
+                out.append(ok(R, key, 'the value moved out is matched on before the function returns', fn=fn.name))
+            elif tgt is not None:
+                out.append(bad(R, key, why + ': the function can return between moving the value out and looking at it', fn=fn.name))
+    # the signaller's destructor always looks at the result slot
+    dr = F.fn('<desync::SchedulerFutureSignaller as core::ops::drop::Drop>::drop')
+    key = 'SchedulerFutureSignaller::drop|looks-at-the-slot'
+    if dr:
+        tests = [bb for bb, t in dr.calls() if (t['func'].get('fn') or '').endswith(('FutureResultState::is_none', 'FutureResultState::is_some')) and not dr.blocks[bb]['cleanup']]
+        if tests and _always(dr, tests):
+            out.append(ok(R, key, 'the destructor always tests whether a result was delivered', fn=dr.name))
+        elif tests:
+            out.append(bad(R, key, 'the signaller can be dropped without the destructor looking at the result slot: a job that was dropped or panicked leaves its future pending for ever', fn=dr.name))
+    # SyncFuture::poll puts its state back
+    sp = F.fn('<desync::SyncFuture as core::future::future::Future>::poll')
+    key = 'SyncFuture::poll|puts-its-state-back'
+    if sp:
+        sw = [bb for bb, t in sp.calls() if (t['func'].get('fn') or '') in ('core::mem::swap', 'core::mem::replace', 'core::mem::take') and not sp.blocks[bb]['cleanup']]
+        u = FieldUse(sp, None)
+        backs = [bb for (bb, i, v) in u.assigns.get('state', [])]
+        if len(sw) == 1 and backs:
+            tgt = sp.blocks[sw[0]]['term']['target']
+            if tgt is not None and sp.must_pass(tgt, set(sp.exits()), set(backs)):
+                out.append(ok(R, key, 'after taking its state out, every path stores the new state before returning', fn=sp.name))
+            elif tgt is not None:
+                out.append(bad(R, key, 'SyncFuture::poll can return while its state is still the placeholder it swapped in: the next poll finds "completed" and the operation is never run or never finished', fn=sp.name))
+    # UnsafeJob's destructor always looks for its notification
+    uj = F.fn('<desync::UnsafeJob as core::ops::drop::Drop>::drop')
+    key = 'UnsafeJob::drop|looks-for-its-notification'
+    if uj:
+        takes = [bb for bb, t in calls(uj, 'core::option::Option::take')]
+        if takes and _always(uj, takes):
+            out.append(ok(R, key, 'the destructor always takes the completion notification', fn=uj.name))
+        elif takes:
+            out.append(bad(R, key, 'an UnsafeJob can be dropped without signalling completion: the sync() caller that waits for exactly this never returns', fn=uj.name))
+    # ActiveQueue's destructor always asks whether the thread is unwinding
+    aq = F.fn('<desync::ActiveQueue as core::ops::drop::Drop>::drop')
+    key = 'ActiveQueue::drop|asks-whether-unwinding'
+    if aq:
+        pk = [bb for bb, t in aq.calls() if (t['func'].get('fn') or '').endswith('thread::panicking') or (t['func'].get('fn') or '').endswith('std::thread::functions::panicking')]
+        if pk and _always(aq, pk):
+            out.append(ok(R, key, 'the guard always tests thread::panicking()', fn=aq.name))
+        elif pk:
+            out.append(bad(R, key, 'the ActiveQueue guard can be dropped without testing whether a job is unwinding through it: a panicking operation leaves its queue usable', fn=aq.name))
+    return out
+
+
+def _pipe_rows2(ctx):
+    from .ordq import await_sites
+    from .rules_lw import FieldUse
+    F = ctx.F
+    g = cg(ctx)
+    out = []
+    # PipeWaker: a context that was still there is always polled
+    pw = F.fn('<desync::PipeWaker as futures_task::arc_wake::ArcWake>::wake_by_ref')
+    key = 'PipeWaker|polls-what-it-took'
+    if pw:
+        polls = set(bb for bb, t in calls(pw, 'PipeContext::poll'))
+        cuts = _option_none_edges(pw, 'PipeContext')
+        if polls:
+            if _reach_exit_avoiding(pw, polls, cuts):
+                out.append(bad(R, key, 'a wake-up of the pipe can take the context and return without polling: the input has signalled new data and nobody reads it', fn=pw.name))
+            else:
+                out.append(ok(R, key, 'the only way past the poll is the None edge of the context slot', fn=pw.name))
+    # PipeStream::drop always hands on_drop to the disposal queue
+    dr = F.fn('<desync::PipeStream as core::ops::drop::Drop>::drop')
+    key = 'PipeStream::drop|runs-on_drop'
+    if dr:
+        u = FieldUse(dr, None)
+        takes = [bb for (bb, m, t) in u.calls.get('on_drop', []) if m in ('take', 'as_mut', 'as_ref')]
+        if takes and _always(dr, takes):
+            out.append(ok(R, key, 'every drop of the output stream takes on_drop (which releases the pipe\'s Arc<Desync>)', fn=dr.name))
+        elif takes:
+            out.append(bad(R, key, 'the output stream can be dropped without on_drop being taken and run: the pipe keeps its own Arc<Desync> and the target lives for ever', fn=dr.name))
+    # PipeContext::poll: target alive -> a poll job is queued; target gone -> the poll function is released
+    pp = F.fn('desync::PipeContext::poll')
+    key = 'PipeContext::poll|queues-a-job-or-releases'
+    if pp:
+        ups = [(bb, t) for bb, t in pp.calls() if (t['func'].get('fn') or '').endswith('::upgrade') and not pp.blocks[bb]['cleanup']]
+        fds = set(bb for bb, t in calls(pp, 'Desync::future_desync'))
+        u = FieldUse(pp, None)
+        rel = set(bb for (bb, m, t) in u.calls.get('poll_fn', []) if m == 'take') | set(bb for (bb, i, v) in u.assigns.get('poll_fn', []))
+        # take() through the lock guard is a call on the guard, not on the field: accept Option::take of an Option<PollFn>
+        rel |= set(bb for bb, t in calls(pp, 'core::option::Option::take') if not pp.blocks[bb]['cleanup'])
+        if len(ups) == 1 and fds:
+            e = result_edges(pp, ups[0][0])
+            some = edge_for(e, OPTION, 'Some') if e else None
+            none = edge_for(e, OPTION, 'None') if e else None
+            if some is None or none is None or not _always(pp, [ups[0][0]]):
+                out.append(bad(R, key, 'PipeContext::poll can return without asking whether the target is still alive', fn=pp.name) if some is not None else undecided(R, key, 'test of upgrade() not recognised'))
+            elif not pp.must_pass(some, set(pp.exits()), fds):
+                out.append(bad(R, key, 'the target is alive and PipeContext::poll can return without queuing a poll job on it: the wake-up that asked for the poll is lost and the pipe stalls', fn=pp.name))
+            elif rel and not pp.must_pass(none, set(pp.exits()), rel):
+                out.append(bad(R, key, 'the target is gone and PipeContext::poll can return without releasing the poll function (input stream and closure)', fn=pp.name))
+            else:
+                out.append(ok(R, key, 'alive -> a poll job is always queued; gone -> the poll function is always released', fn=pp.name))
+        # inside the job: the poll function is called when it is there, and its future is awaited
+        for c in [x for x in _children(ctx, pp.name) if x.is_coroutine]:
+            key2 = 'PipeContext::poll|job-polls'
+            hofs = [s_.bb for s_ in g.sites.get(c.name, []) if s_.kind == 'hof' and any(F.fn(t_) is not None and any(x.kind == 'param' for x in g.sites.get(t_, [])) for t_ in s_.targets)]
+            direct = [s_.bb for s_ in g.sites.get(c.name, []) if s_.kind == 'param']
+            aw = await_sites(c)
+            sites = set(hofs) | set(direct)
+            if not sites or not aw:
+                continue
+            cuts = _option_none_edges(c, 'PollFn') | _option_none_edges(c, 'BoxFuture') | _option_none_edges(c, 'Pin<')
+            awb = set(a['poll_bb'] for a in aw)
+            if not _always(c, sites):
+                out.append(bad(R, key2, 'the poll job can finish without calling the poll function: the wake-up it was queued for is lost', fn=c.name))
+            elif _reach_exit_avoiding(c, awb, cuts):
+                out.append(bad(R, key2, 'the poll job can finish without awaiting the future the poll function returned: the items it would have read stay unread', fn=c.name))
+            else:
+                out.append(ok(R, key2, 'the job calls the poll function and awaits what it returns (unless the function is already gone)', fn=c.name))
     return out
